@@ -92,7 +92,9 @@ pub async fn resolve_host_with_cache(host: &str, port: u16) -> Result<SocketAddr
 
     if let Some(addr) = DNS_CACHE.get(host).await {
         DNS_CACHE.advance(host).await;
-        return Ok(addr);
+        // The cache is keyed by host name only; the cached socket address carries the
+        // port of the request that filled the entry, so take just the IP from it.
+        return Ok(SocketAddr::new(addr.ip(), port));
     }
 
     let resolver_opt = DNS_RESOLVER.read().await.clone();
